@@ -49,7 +49,6 @@ type VSlice struct {
 	Ptr      *VSet
 	Len, Cap VInt
 }
-type VStr struct{ S string }
 type VRange struct{ M *VSet } // map iterator placeholder
 
 func (m *M) nilSet() *VSet { return &VSet{Alts: []Alt{{m.c.T, NilC{}}}} }
@@ -146,11 +145,7 @@ func (m *M) merge(g *smt.Term, a, b Value) Value {
 		y := b.(VSlice)
 		return VSlice{m.merge(g, x.Ptr, y.Ptr).(*VSet), m.merge(g, x.Len, y.Len).(VInt), m.merge(g, x.Cap, y.Cap).(VInt)}
 	case VStr:
-		y := b.(VStr)
-		if x.S == y.S {
-			return x
-		}
-		panic("merge of distinct concrete strings unsupported in prototype")
+		return m.strMerge(g, x, b.(VStr))
 	}
 	panic(fmt.Sprintf("merge: unsupported %T", a))
 }
@@ -230,7 +225,7 @@ func (m *M) eqValues(a, b Value) *smt.Term {
 		}
 		return m.c.Or(ds...)
 	case VStr:
-		return m.c.Bool(x.S == b.(VStr).S)
+		return m.strEq(x, b.(VStr))
 	case VSlice:
 		// only comparison with nil is legal in Go
 		return m.eqSets(x.Ptr, b.(VSlice).Ptr)
@@ -344,7 +339,7 @@ func (m *M) zero(t types.Type) Value {
 			return VBool{m.c.F}
 		}
 		if u.Info()&types.IsString != 0 {
-			return VStr{""}
+			return m.strConst("")
 		}
 		if w, _, ok := intWidth(t); ok {
 			return VInt{m.c.BV(0, w)}
